@@ -545,7 +545,9 @@ def check_helper_schema(R, prog, helpers):
         got = {}
         for e in extract(build, helper=True):
             got.setdefault(e.key(), e)
-        want = set(HELPER_SPECS[key])
+        from ..schema import split_conditionals
+        got = {k2: e for k, e in got.items() for k2 in split_conditionals(k)}
+        want = {k2 for k in HELPER_SPECS[key] for k2 in split_conditionals(k)}
         if set(got) != want:
             # the schema differs from the reviewed table: is the helper, folded on a finite table of option values, still the reviewed one?
             from .. import helperfold
